@@ -932,7 +932,13 @@ impl Kanata {
         tick_record_state(&mut self.dynamic_macro_record_state);
         zippy_tick(self.caps_word.is_some());
         self.prev_keys.clear();
-        self.prev_keys.append(&mut self.cur_keys);
+        // The layout state can hold the same key more than once, e.g. (multi lsft S-a).
+        // It is pressed once at the OS and must be released once.
+        for k in self.cur_keys.drain(..) {
+            if !self.prev_keys.contains(&k) {
+                self.prev_keys.push(k);
+            }
+        }
         self.tick_held_vkeys();
         #[cfg(feature = "simulated_output")]
         {
